@@ -376,6 +376,17 @@ class Interp:
             return out
         seen.add(qname)
         for f in self.prog.fns(qname):
+            # local references bound to (an element of) a field: a write through the reference is a write of the field
+            refs = {}
+            for n in walk(f['body']):
+                if n.get('k') == 'Decl':
+                    for d in n['decls']:
+                        if d.get('type', '').rstrip().endswith('&') and not d.get('type', '').startswith('const ') and d.get('init') is not None:
+                            b = d['init']
+                            while b is not None and (b.get('k') in ('Index', 'Paren', 'Cast') or (b.get('k') == 'Call' and short(b.get('callee')) == 'operator[]')):
+                                b = b.get('base') or b.get('recv') or b.get('e')
+                            if b is not None and b.get('k') == 'Member' and b.get('base', {}).get('k') == 'This':
+                                refs[d['var']['name']] = b['field']
             for n in walk(f['body']):
                 k = n.get('k')
                 t = None
@@ -398,6 +409,8 @@ class Interp:
                     t = t.get('base') or t.get('recv') or t.get('e')
                 if t is not None and t.get('k') == 'Member' and t.get('base', {}).get('k') == 'This':
                     out.add(t['field'])
+                elif t is not None and t.get('k') == 'Var' and t.get('name') in refs:
+                    out.add(refs[t['name']])
         if depth == 3:
             memo[qname] = out
         return out
